@@ -83,6 +83,21 @@ def r1_provenance(ctx, res):
     backs = [n for n in ast.walk(lp) if isinstance(n, ast.Call) and norm(n.func) == 'get_synsets_for_ilis']
     chk('backmap', len(backs) == 1 and norm(backs[0]) == f'get_synsets_for_ilis([{ili_var}], lexicon_rowids=lexids)',
         f'targets are no longer resolved with get_synsets_for_ilis([target ILI], <element scope>): {[norm(b) for b in backs]}')
+    # the rows that are yielded are the result of *this* row's back-mapping (a cache must be keyed by the target ILI)
+    rows_src = [s2 for s2 in ast.walk(lp) if isinstance(s2, ast.Assign) and norm(s2.targets[0]) == 'local_ss_rows']
+    ok_rows = False
+    for s2 in rows_src:
+        v = s2.value
+        if any(isinstance(x, ast.Call) and norm(x.func) == 'get_synsets_for_ilis' for x in ast.walk(v)):
+            ok_rows = True
+        elif isinstance(v, ast.Subscript) and norm(v.slice) == ili_var:
+            ok_rows = True
+        else:
+            ok_rows = False
+            break
+    chk('backmap-rows-of-this-ili', bool(rows_src) and ok_rows,
+        'the local synsets yielded for a relation are not (directly, or through a cache keyed by the target ILI) the result of '
+        'get_synsets_for_ilis for that relation\'s target ILI')
     yields = [n for n in ast.walk(lp) if isinstance(n, ast.Yield)]
     chk('yield-count', len(yields) == 2, f'expected two yields (mapped synsets / placeholder), found {len(yields)}')
     ok_map = ok_empty = False
@@ -226,7 +241,7 @@ def r4_default_expand(ctx, res):
 
 
 RULES = [
-    ('C12-R1', r1_provenance, 12),
+    ('C12-R1', r1_provenance, 13),
     ('C12-R2', r2_nullness, 2),
     ('C12-R3', r3_order_and_switch, 3),
     ('C12-R4', r4_default_expand, 5),
